@@ -1,9 +1,101 @@
 import Driver.Util
-open Lean
+import Driver.C03
+import Torf.Model.PipelineExit
+import Torf.Spec.Pipeline
+open Lean Torf.Pipeline Torf.PipelineExit
 namespace Driver.C04
 
+def parseFaultCall (s : String) : Except String FaultCall :=
+  match s with
+  | "read" => pure .read | "seek" => pure .seek | "oom" => pure .oom | "evict" => pure .evict
+  | _ => throw s!"bad faultCall {s}"
+
+def parseMainPoint (s : String) : Except String MainPoint :=
+  match s with
+  | "poolInit" => pure .poolInit | "beforeCollect" => pure .beforeCollect
+  | _ => throw s!"bad mainFail {s}"
+
+/-- cfg of `c03.replay` plus optional `faultCall`, `closeFault`, `mainFail` -/
+def parseCfgE (j : Json) : Except String CfgE := do
+  let base ← Driver.C03.parseCfg j
+  let fc ← match j.getObjValAs? String "faultCall" with
+    | .ok s => parseFaultCall s
+    | .error _ => pure .read
+  let cf := (j.getObjValAs? Bool "closeFault").toOption.getD false
+  let mf ← match j.getObjValAs? String "mainFail" with
+    | .ok s => (parseMainPoint s).map some
+    | .error _ => pure none
+  return { base := base, faultCall := fc, closeFault := cf, mainFail := mf }
+
+def rexcStr : RExc → String
+  | .readError => "readError" | .osError => "osError"
+
+def pointStr : MainPoint → String
+  | .poolInit => "poolInit" | .beforeCollect => "beforeCollect"
+
+def resultEJson : Option ResultE → Json
+  | none => Json.null
+  | some (.mainFailed p) => jobj [("raised", jobj [("kind", "mainFailed"), ("point", jstr (pointStr p))])]
+  | some (.readerExc k) => jobj [("raised", jobj [("kind", "readerExc"), ("class", jstr (rexcStr k))])]
+  | some (.base r) => Driver.C03.resultJson (some r)
+
+/-- op `c04.replay`: replay a logged label sequence in the model with exit paths
+    (`Model/PipelineExit.lean`).  Same request and reply as `c03.replay`; the reply also carries
+    the ghost variables of the extended state. -/
+def replay (j : Json) : Except String Json := do
+  let cfg ← parseCfgE (← j.getObjVal? "cfg")
+  let trace ← getArr j "trace"
+  let mut s := initE cfg
+  let mut idx := 0
+  let mut aliveAtReturn : Option (List String) := none
+  for e in trace do
+    let a ← e.getArr?
+    if a.size < 3 then throw "trace entry too short"
+    let tidS ← a[0]!.getStr?
+    let op ← a[1]!.getStr?
+    let dec ← a[2]!.getStr?
+    let tid ← Driver.C03.parseTid tidS
+    let expected := opNameE s tid
+    if expected != op then
+      return jobj [("ok", jbool false), ("at", jnat idx), ("why", jstr "op-mismatch"),
+                   ("modelOp", jstr expected), ("implOp", jstr op), ("thread", jstr tidS)]
+    match stepE cfg s { tid := tid, timeout := dec == "timeout" } with
+    | none =>
+      return jobj [("ok", jbool false), ("at", jnat idx), ("why", jstr "not-enabled-in-model"),
+                   ("thread", jstr tidS), ("implOp", jstr op), ("decision", jstr dec)]
+    | some s' =>
+      s := s'
+      if a.size ≥ 6 then
+        match a[3]!.getNat?, a[4]!.getNat?, a[5]!.getBool? with
+        | .ok pq, .ok hq, .ok fin =>
+          if pq != s.base.pq.length || hq != s.base.hq.length || fin != s.base.fin then
+            return jobj [("ok", jbool false), ("at", jnat idx), ("why", jstr "state-mismatch"),
+                         ("model", jobj [("pq", jnat s.base.pq.length), ("hq", jnat s.base.hq.length),
+                                         ("fin", jbool s.base.fin)]),
+                         ("impl", jobj [("pq", jnat pq), ("hq", jnat hq), ("fin", jbool fin)]),
+                         ("thread", jstr tidS), ("implOp", jstr op)]
+        | _, _, _ => pure ()
+      if terminalE s && aliveAtReturn.isNone then
+        aliveAtReturn := some (Driver.C03.runningThreads cfg.base s.base)
+    idx := idx + 1
+  -- which threads could still take a step (for runs that end stuck)
+  let enabled := (allLabels cfg.base).filterMap fun l =>
+    match stepE cfg s l with
+    | some _ => some (Driver.C03.tidStr l.tid)
+    | none => none
+  return jobj [("ok", jbool true), ("terminal", jbool (terminalE s)),
+               ("result", resultEJson (resultE? s)),
+               ("aliveAtReturn", match aliveAtReturn with | some l => jarr (l.map jstr) | none => Json.null),
+               ("running", jarr ((Driver.C03.runningThreads cfg.base s.base).map jstr)),
+               ("enabled", jarr (enabled.eraseDups.map jstr)),
+               ("stop", jbool s.base.stop), ("seen", jnats s.base.seen), ("collected", jnats s.base.collected),
+               ("sentinels", jnat s.sentinels), ("closed", jbool s.closed),
+               ("readerExc", match s.rexcKind with | some k => jstr (rexcStr k) | none => Json.null)]
+
 /-- ops of property C04: `c04.<name>` -/
-def handle (op : String) (_j : Json) : Except String Json :=
-  throw s!"unknown op {op}"
+def handle (op : String) (j : Json) : Except String Json :=
+  match op with
+  | "c04.replay" => replay j
+  | _ => throw s!"unknown op {op}"
 
 end Driver.C04
